@@ -698,6 +698,12 @@ prc[d] : lin 1 = l : lin 1 * 1 <- new cast b<self>; <x, y> <- recv l; wait x; wa
 prc[a] : T = x <- shift self; y <- shift x; close y`},
 	{"y10", "C06: a down-shift whose continuation is a shift of a different mode", `type T = rep \/ aff (lin \/ lin 1)
 let f(x : T) : aff 1 = y <- shift x; z <- shift y; wait z; close self`},
+	{"y11", "C05: a case branch on the provider re-binds a parameter that is still in scope", `type T = lin &{l : 1 * 1}
+let f(y : lin 1, v : lin 1) : T = case self ( l<y> => send y<y, v> )
+prc[a] : lin 1 = close self
+prc[b] : lin 1 = close self
+prc[c] : T = f(a, b)
+prc[d] : lin 1 = r : lin 1 * 1 <- new (c.l<self>); <p, q> <- recv r; wait p; wait q; print fin; close self`},
 }
 
 // ZZRunIllTyped: every program of illTypedMenu is rejected; if one is accepted it is run (in the
@@ -826,7 +832,8 @@ func init() { vn.Register("zzpub.ZZRunTwice", ZZRunTwice) }
 // ZZRunStructural: enumerated structural programs. A client applies a sequence of L structural
 // actions (split, drop, forward through a cut, use) to a replicable channel and the names that
 // result, then uses up what is left. The provider is a positive unit (`print once; close self`,
-// FAMILY 0) or a negative server (`<p, q> <- recv self; wait p; print served; close q`, FAMILY 1).
+// FAMILY 0), a negative server (`<p, q> <- recv self; wait p; print served; close q`, FAMILY 1) or
+// a positive pair whose components are provided by two spawned children (FAMILY 2).
 // Every such program is typechecked and run in the three modes under every schedule:
 // no error, quiescence, nothing stuck; in the polarised modes the labels are exactly
 // {once, fin} / {served x uses, fin}.
@@ -841,12 +848,18 @@ func ZZRunStructural() {
 		if family == 0 {
 			return "wait " + n + "; "
 		}
+		if family == 2 {
+			return "<p" + itoa(i) + ", q" + itoa(i) + "> <- recv " + n + "; wait p" + itoa(i) + "; wait q" + itoa(i) + "; "
+		}
 		uses++
 		return "u" + itoa(i) + " <- new mk(); r" + itoa(i) + " : rep 1 <- new (send " + n + "<u" + itoa(i) + ", self>); wait r" + itoa(i) + "; "
 	}
 	ty := "rep 1"
 	if family == 1 {
 		ty = "F"
+	}
+	if family == 2 {
+		ty = "A"
 	}
 	for i := 0; i < L && len(live) > 0; i++ {
 		act := vn.Pick(4)
@@ -876,6 +889,8 @@ func ZZRunStructural() {
 	src := ""
 	if family == 0 {
 		src = "prc[x] : rep 1 = print once; close self\n"
+	} else if family == 2 {
+		src = "type A = rep 1 * 1\nlet mk() : rep 1 = print leaf; close self\nprc[x] : A = u <- new mk(); v <- new mk(); send self<u, v>\n"
 	} else {
 		src = "type F = rep 1 -* 1\nlet mk() : rep 1 = close self\nprc[x] : F = <p, q> <- recv self; wait p; print served; close q\n"
 	}
@@ -890,6 +905,9 @@ func ZZRunStructural() {
 	want := []string{"fin"}
 	if family == 0 {
 		want = append(want, "once")
+	}
+	if family == 2 {
+		want = append(want, "leaf", "leaf")
 	}
 	for i := 0; i < uses; i++ {
 		want = append(want, "served")
